@@ -16,7 +16,9 @@ Conventions
   `x << k` is "multiply by `2^k`, then wrap".
 * one q120 element = four residues, prime index `k = 0..3`; per-prime kernels carry the suffix `K`.
   The Rust loops run `for i in 0..ell { for k in 0..4 { … } }`; the accumulators of different primes
-  are independent, so the model runs prime by prime (`k` outside, `i` inside).
+  are independent, so the model runs prime by prime (`k` outside, `i` inside).  Flat operand slices
+  of the dot products are `Array Nat` (constant-time indexing in the driver); every index used is
+  below the length checked by the entry assertion, which the model reproduces.
 -/
 
 namespace Ntt120
@@ -162,6 +164,13 @@ def negBK (q a : Nat) : Nat := subU64 (qShifted q) (a % qShifted q)
 /-- `add_ccc_ref`: `((x as u64 + y as u64) % q) as u32` -/
 def addCccK (q x y : Nat) : Nat := wu32 (wu64 (x + y) % q)
 
+/-- `lazy_reduce` of poulpy-cpu-avx/src/ntt120/prim.rs: one conditional subtraction of `q_s`
+(the AVX2 twin of `% q_s`; equal to it exactly when `x < 2·q_s`) -/
+def lazyReduceAvx (q x : Nat) : Nat := if x ≥ qShifted q then subU64 x (qShifted q) else x
+def addBbbAvxK (q x y : Nat) : Nat := wu64 (lazyReduceAvx q x + lazyReduceAvx q y)
+def subBbbAvxK (q a b : Nat) : Nat := wu64 (lazyReduceAvx q a + subU64 (qShifted q) (lazyReduceAvx q b))
+def negBAvxK (q a : Nat) : Nat := subU64 (qShifted q) (lazyReduceAvx q a)
+
 /-- element-wise lift of a per-prime binary kernel to q120b vectors (4 residues per element,
 prime index = position mod 4) -/
 def zipK (P : PrimeSet) (f : Nat → Nat → Nat → Nat) (x y : List Nat) : List Nat :=
@@ -213,27 +222,27 @@ def bbcK (h s2lPow s2hPow : Nat) (terms : List (Nat × Nat × Nat × Nat)) : Nat
 
 /-- the `(x_lo, x_hi, y_lo, y_hi)` of prime `k`, rows `0..ell`, for element strides `sx`, `sy` and
 element offsets `ox`, `oy` inside a row (1-column: `8,8,0,0`; x2: `16,16,{0,8},{0,8}`; …) -/
-def bbcTerms (ell k sx ox sy oy : Nat) (x y : List Nat) : List (Nat × Nat × Nat × Nat) :=
+def bbcTerms (ell k sx ox sy oy : Nat) (x y : Array Nat) : List (Nat × Nat × Nat × Nat) :=
   (List.range ell).map (fun i =>
     (x.getD (sx * i + ox + 2 * k) 0, x.getD (sx * i + ox + 2 * k + 1) 0,
      y.getD (sy * i + oy + 2 * k) 0, y.getD (sy * i + oy + 2 * k + 1) 0))
 
-def bbcOut (m : BbcMeta) (ell sx ox sy oy : Nat) (x y : List Nat) : List Nat :=
+def bbcOut (m : BbcMeta) (ell sx ox sy oy : Nat) (x y : Array Nat) : List Nat :=
   (List.range 4).map (fun k => bbcK m.h (m.s2l.getD k 0) (m.s2h.getD k 0) (bbcTerms ell k sx ox sy oy x y))
 
 /-- `vec_mat1col_product_bbc_ref(meta, ell, res, x, y)` → `res[0..4]` -/
-def vecMat1ColProductBbc (m : BbcMeta) (ell : Nat) (x y : List Nat) : Outcome (List Nat) :=
-  if x.length < 8 * ell ∨ y.length < 8 * ell then .panic "assert"
+def vecMat1ColProductBbc (m : BbcMeta) (ell : Nat) (x y : Array Nat) : Outcome (List Nat) :=
+  if x.size < 8 * ell ∨ y.size < 8 * ell then .panic "assert"
   else .ok (bbcOut m ell 8 0 8 0 x y)
 
 /-- `vec_mat1col_product_x2_bbc_ref` → `res[0..8]` -/
-def vecMat1ColProductX2Bbc (m : BbcMeta) (ell : Nat) (x y : List Nat) : Outcome (List Nat) :=
-  if x.length < 16 * ell ∨ y.length < 16 * ell then .panic "assert"
+def vecMat1ColProductX2Bbc (m : BbcMeta) (ell : Nat) (x y : Array Nat) : Outcome (List Nat) :=
+  if x.size < 16 * ell ∨ y.size < 16 * ell then .panic "assert"
   else .ok (bbcOut m ell 16 0 16 0 x y ++ bbcOut m ell 16 8 16 8 x y)
 
 /-- `vec_mat2cols_product_x2_bbc_ref` → `res[0..16]` -/
-def vecMat2ColsProductX2Bbc (m : BbcMeta) (ell : Nat) (x y : List Nat) : Outcome (List Nat) :=
-  if x.length < 16 * ell ∨ y.length < 32 * ell then .panic "assert"
+def vecMat2ColsProductX2Bbc (m : BbcMeta) (ell : Nat) (x y : Array Nat) : Outcome (List Nat) :=
+  if x.size < 16 * ell ∨ y.size < 32 * ell then .panic "assert"
   else .ok (bbcOut m ell 16 0 32 0 x y ++ bbcOut m ell 16 8 32 8 x y ++
             bbcOut m ell 16 0 32 16 x y ++ bbcOut m ell 16 8 32 24 x y)
 
@@ -294,8 +303,8 @@ def bbbK (h s1hP s2lP s2hP s3lP s3hP s4lP s4hP : Nat) (terms : List (Nat × Nat)
     (terms.foldl (fun s t => bbbAccK s t.1 t.2) (0, 0, 0, 0))
 
 /-- `vec_mat1col_product_bbb_ref(meta, ell, res, x, y)` → `res[0..4]` -/
-def vecMat1ColProductBbb (m : BbbMeta) (ell : Nat) (x y : List Nat) : Outcome (List Nat) :=
-  if x.length < 4 * ell ∨ y.length < 4 * ell then .panic "assert"
+def vecMat1ColProductBbb (m : BbbMeta) (ell : Nat) (x y : Array Nat) : Outcome (List Nat) :=
+  if x.size < 4 * ell ∨ y.size < 4 * ell then .panic "assert"
   else .ok ((List.range 4).map (fun k =>
     bbbK m.h m.s1h (m.s2l.getD k 0) (m.s2h.getD k 0) (m.s3l.getD k 0) (m.s3h.getD k 0) (m.s4l.getD k 0) (m.s4h.getD k 0)
       ((List.range ell).map (fun i => (x.getD (4 * i + k) 0, y.getD (4 * i + k) 0)))))
@@ -315,8 +324,8 @@ def baaK (h hPow : Nat) (terms : List (Nat × Nat)) : Nat :=
     (wu64 (s.1 + (p &&& maskOf h)), wu64 (s.2 + (p >>> h)))) (0, 0)
   wu64 (acc.1 + wu64 (acc.2 * hPow))
 
-def vecMat1ColProductBaa (m : BaaMeta) (ell : Nat) (x y : List Nat) : Outcome (List Nat) :=
-  if x.length < 4 * ell ∨ y.length < 4 * ell then .panic "assert"
+def vecMat1ColProductBaa (m : BaaMeta) (ell : Nat) (x y : Array Nat) : Outcome (List Nat) :=
+  if x.size < 4 * ell ∨ y.size < 4 * ell then .panic "assert"
   else .ok ((List.range 4).map (fun k =>
     baaK m.h (m.hPowRed.getD k 0) ((List.range ell).map (fun i => (x.getD (4 * i + k) 0, y.getD (4 * i + k) 0)))))
 
